@@ -150,7 +150,9 @@ func TestMatrix(t *testing.T) {
 		}
 	}
 	vkit.Exhaustive("command type (13 registry + 8 special forms) x identity {none, challenged, L, T, S} x claim {empty, own, T, L} x pending {no, yes} for response forms", true)
-	vkit.Extra("command_types_in_table", len(specs))
+	if vkit.Shard() == 0 {
+		vkit.Extra("command_types_in_table", len(specs))
+	}
 }
 
 // TestRegistryEnumerated: the table covers exactly what the production wiring registers.
@@ -183,7 +185,9 @@ func TestRegistryEnumerated(t *testing.T) {
 			t.Fatalf("HARNESS-ERROR no spec for registered type %d", ct)
 		}
 	}
-	vkit.Extra("registry_handlers", len(got))
+	if vkit.Shard() == 0 {
+		vkit.Extra("registry_handlers", len(got))
+	}
 }
 
 // TestUnregisteredTypes: every other (command type, packet type) pair is inert for an unauthenticated
@@ -289,7 +293,7 @@ func genCell(t *rapid.T) Cell {
 
 // TestRandomCells: one drawn command in a fresh world, as a metamorphic pair (drawn claim vs empty claim).
 func TestRandomCells(t *testing.T) {
-	vkit.Check(t, 240, 12000, func(t *rapid.T) {
+	vkit.Check(t, 480, 12000, func(t *rapid.T) {
 		c := genCell(t)
 		if c.Claim == "empty" {
 			group(t, c, []string{"empty"})
@@ -303,7 +307,7 @@ func TestRandomCells(t *testing.T) {
 // deleted objects, closed connections) is carried across commands and every step is judged against the
 // parties recorded in the state before it.
 func TestSequences(t *testing.T) {
-	vkit.Check(t, 160, 8000, func(t *rapid.T) {
+	vkit.Check(t, 320, 8000, func(t *rapid.T) {
 		n := rapid.IntRange(2, vkit.Pick(6, 10)).Draw(t, "n")
 		var c Case
 		for i := 0; i < n; i++ {
